@@ -207,7 +207,10 @@ void Exec::do_twin(const Step& st, const Client& cl) {
   tw.wild = src.wild;
   if (!verify_selected<S>(prec, tw, "C11", "C11.frame.twincopy")) return;
   // re-evaluate what the source instance evaluated recently: the purity table decides
-  for (const Inst::Recent& rc : src.recent) {
+  // most recent first: the twin's first call repeats the source instance's last call (same point, same values, one
+  // right after the other -- the situation in which state shared between instances is most likely to be mistaken for the twin's own)
+  std::vector<Inst::Recent> order(src.recent.rbegin(), src.recent.rend());
+  for (const Inst::Recent& rc : order) {
     Step es;
     es.op = OP_EVAL;
     es.client = st.client;
